@@ -32,7 +32,7 @@ def run_conc(exe, ex, extra_env=None, timeout=120):
 
 
 def plan(tier, prop):
-    if tier == 'quick' and prop == 'C04':
+    if tier == 'quick' and prop in ('C04', 'C02'):
         return [(3, 150, 'mix'), (4, 150, 'mix'), (6, 100, 'mix'), (8, 80, 'mix')]
     if tier == 'quick':
         base = [(2, 150, 'mix'), (3, 150, 'mix'), (4, 120, 'mix'), (6, 100, 'mix'), (8, 80, 'mix'), (3, 200, 'stall'), (5, 120, 'stall'), (8, 60, 'stall')]
